@@ -36,6 +36,13 @@ Pow10(k) == CASE k = 0 -> 1 [] k = 1 -> 10 [] k = 2 -> 100 [] k = 3 -> 1000 [] k
 P10(neg, e) == IF e \in 0..6 THEN Fin(neg, Pow10(e), 1)
                ELSE IF e \in (-9..-1) \cup (7..22) THEN [c |-> "p10", neg |-> neg, n |-> e, d |-> 1] ELSE OOM
 Num(i) == Fin(i < 0, IF i < 0 THEN 0 - i ELSE i, 1)
+(* "big": a few exact doubles that need 16-17 significant digits, given by their shortest decimal
+   text: odd integers at the top of the 53-bit range and the double just below one half.  Only
+   conversion, ordering and floor/ceiling/round are defined on them; arithmetic leaves the model. *)
+BigTxt == <<"4503599627370497", "9007199254740991", "0.49999999999999994">>
+BigIsInt == <<TRUE, TRUE, FALSE>>
+BigRank == <<<<3, 156>>, <<3, 157>>, <<2, 63>>>>      \* see MagRank: between 10^15 and 10^16; between 3/8 and 1/2
+Big(neg, i) == [c |-> "big", neg |-> neg, n |-> i, d |-> 1]
 
 IsNaN(x) == x.c = "nan"
 IsOOM(x) == x.c = "oom"
@@ -49,6 +56,7 @@ S8(x) == (IF x.neg THEN -1 ELSE 1) * x.n * (8 \div x.d)   \* fin only: signed nu
 NumClass(x) == CASE x.c = "nan" -> "nan" [] x.c = "oom" -> "oom"
                  [] x.c = "inf" -> (IF x.neg THEN "ninf" ELSE "pinf")
                  [] x.c = "p10" -> (IF x.n < 0 THEN "tiny" ELSE "huge")
+                 [] x.c = "big" -> (IF BigIsInt[x.n] THEN "bigint" ELSE "below-half")
                  [] IsZero(x) -> (IF x.neg THEN "nzero" ELSE "pzero")
                  [] x.d = 1 -> (IF x.neg THEN "negint" ELSE "posint")
                  [] OTHER -> (IF x.neg THEN "negfrac" ELSE "posfrac")
@@ -56,9 +64,10 @@ NumClass(x) == CASE x.c = "nan" -> "nan" [] x.c = "oom" -> "oom"
 \* ---------------------------------------------------------------- order
 \* magnitude rank of a non-NaN, non-oom number: <<class, sub>>, lexicographic
 MagRank(x) == CASE x.c = "inf" -> <<4, 0>>
-                [] x.c = "p10" -> (IF x.n < 0 THEN <<1, x.n>> ELSE <<3, x.n>>)
+                [] x.c = "p10" -> (IF x.n < 0 THEN <<1, x.n>> ELSE <<3, x.n * 10>>)
+                [] x.c = "big" -> BigRank[x.n]
                 [] IsZero(x) -> <<0, 0>>
-                [] OTHER -> <<2, x.n * (8 \div x.d)>>
+                [] OTHER -> <<2, 16 * x.n * (8 \div x.d)>>        \* sixteenths of an eighth: 63 lies between 3/8 (48) and 1/2 (64)
 MagLt(a, b) == a[1] < b[1] \/ (a[1] = b[1] /\ a[2] < b[2])
 \* IEEE <, = (NaN unordered, -0 = +0)
 NumLt(x, y) ==
@@ -115,15 +124,18 @@ Mod(x, y) ==
   ELSE IF ~Arith(x, y) THEN OOM
   ELSE LET r == Abs(S8(x)) % Abs(S8(y)) IN IF r = 0 THEN Zero(x.neg) ELSE Fin(x.neg, r, 8)
 
-Floor(x) == IF x.c = "p10" THEN (IF x.n > 0 THEN x ELSE IF x.neg THEN Num(-1) ELSE Zero(FALSE))
+BigFloor(x) == IF BigIsInt[x.n] THEN x ELSE IF x.neg THEN Num(-1) ELSE Zero(FALSE)
+BigCeil(x) == IF BigIsInt[x.n] THEN x ELSE IF x.neg THEN Zero(TRUE) ELSE Num(1)
+BigRound(x) == IF BigIsInt[x.n] THEN x ELSE Zero(x.neg)       \* 0.49999999999999994 is closer to 0 than to 1
+Floor(x) == IF x.c = "big" THEN BigFloor(x) ELSE IF x.c = "p10" THEN (IF x.n > 0 THEN x ELSE IF x.neg THEN Num(-1) ELSE Zero(FALSE))
             ELSE IF x.c # "fin" \/ IsZero(x) THEN x
             ELSE LET q == S8(x) \div 8 IN IF q = 0 THEN Zero(FALSE) ELSE Num(q)
-Ceil(x) == IF x.c = "p10" THEN (IF x.n > 0 THEN x ELSE IF x.neg THEN Zero(TRUE) ELSE Num(1))
+Ceil(x) == IF x.c = "big" THEN BigCeil(x) ELSE IF x.c = "p10" THEN (IF x.n > 0 THEN x ELSE IF x.neg THEN Zero(TRUE) ELSE Num(1))
            ELSE IF x.c # "fin" \/ IsZero(x) THEN x
            ELSE LET q == 0 - ((0 - S8(x)) \div 8) IN IF q = 0 THEN Zero(TRUE) ELSE Num(q)
 \* round: closest integer, ties towards +infinity; NaN, +-Inf, +-0 to themselves;
 \* -0.5 <= x < 0 gives negative zero (XPath 4.4)
-Round(x) == IF x.c = "p10" THEN (IF x.n > 0 THEN x ELSE Zero(x.neg))
+Round(x) == IF x.c = "big" THEN BigRound(x) ELSE IF x.c = "p10" THEN (IF x.n > 0 THEN x ELSE Zero(x.neg))
             ELSE IF x.c # "fin" \/ IsZero(x) THEN x
             ELSE LET q == (S8(x) + 4) \div 8 IN IF q = 0 THEN Zero(x.neg) ELSE Num(q)
 
@@ -159,6 +171,7 @@ ToNumS(s0) ==
       ip0 == IF dp = 0 THEN u ELSE SubSeq(u, 1, dp - 1)
       fp0 == IF dp = 0 THEN "" ELSE SubSeq(u, dp + 1, Len(u))
   IN IF ~(AllDigits(ip0) /\ AllDigits(fp0)) \/ (ip0 = "" /\ fp0 = "") THEN NaN
+     ELSE IF \E i \in 1..Len(BigTxt) : u = BigTxt[i] THEN Big(neg, CHOOSE i \in 1..Len(BigTxt) : u = BigTxt[i])
      ELSE LET ip == StripLeadZ(IF ip0 = "" THEN "0" ELSE ip0)
               fp == StripTrailZ(fp0)
           IN IF fp = "" /\ Len(ip) > 7
@@ -175,6 +188,7 @@ ToStrN(x) ==
   CASE x.c = "nan" -> "NaN"
     [] x.c = "oom" -> "?oom"
     [] x.c = "inf" -> (IF x.neg THEN "-Infinity" ELSE "Infinity")
+    [] x.c = "big" -> (IF x.neg THEN "-" ELSE "") \o BigTxt[x.n]
     [] x.c = "p10" -> (IF x.neg THEN "-" ELSE "") \o (IF x.n > 0 THEN "1" \o Zeros(x.n) ELSE "0." \o Zeros((0 - x.n) - 1) \o "1")
     [] IsZero(x) -> "0"
     [] OTHER -> LET ip == x.n \div x.d  fr == ((x.n % x.d) * 1000) \div x.d
